@@ -131,6 +131,7 @@ def suspend(eng, st, dur, node):
     eng._yield_counter = ordn + 1
     for i, g in enumerate(c.yield_guarantee):
         eng.add_vc('yield-guarantee[%d]' % i, 'yield', st, eng.spb(g, st, +1), node, note=g)
+    check_detached(eng, c, st, node)
     rel = eng.spec.relies.get(c.rely) if c.rely else None
     if rel is None:
         eng.oos('suspension in %s but its contract names no rely relation' % c.qual, node)
@@ -198,6 +199,25 @@ def suspend(eng, st, dur, node):
     res.old = st.old
     res = res.tag('yield@%s' % getattr(node, 'lineno', '?'))
     return [Res(res, mk_none())]
+
+
+def check_detached(eng, c, st, node):
+    """the `detached` contract describes every synchronous prefix of the coroutine: it must hold
+    (relative to the entry state) whenever the coroutine suspends and when it finishes"""
+    d = c.detached
+    if d is None or st.old is None:
+        return
+    if any(t.startswith('yield@') for t in st.trace):
+        return      # only the prefix before the first suspension belongs to the caller's step
+    fs = st.copy()
+    env = dict(st.old.env)
+    for k, v in st.env.items():
+        if k not in env:
+            env[k] = v
+    fs.env = env
+    for i, e in enumerate(d.ensures):
+        eng.add_vc('detached-post[%d]' % i, 'post', fs, eng.spb(e, fs, +1), node, note=e)
+    eng.check_frame(d.modifies, fs, st.old, eng.fi, 'detached-frame')
 
 
 def await_parallel(eng, st, p, node):
